@@ -63,6 +63,95 @@ func c17Load(sdl, backend string) (*ggql.Root, error) {
 	return root, err
 }
 
+// c17MinimalRequests writes, for every root field that takes an input object (at any list depth), a request whose argument
+// value carries only what is required - everything else is left to the defaults, the nested ones included.
+func c17MinimalRequests(ms *model.Schema) []string {
+	var minimal func(t *model.TypeRef, depth int) (interface{}, bool)
+	minimal = func(t *model.TypeRef, depth int) (interface{}, bool) {
+		if depth > 4 {
+			return nil, false
+		}
+		if t.NonNull {
+			return minimal(t.Of, depth)
+		}
+		if t.List {
+			e, ok := minimal(t.Of, depth+1)
+			if !ok {
+				return []interface{}{}, true
+			}
+			return []interface{}{e}, true
+		}
+		td := ms.Type(t.Name)
+		if td == nil || td.Kind != model.Input {
+			switch t.Name {
+			case "Int", "Int64":
+				return int64(1), true
+			case "Float", "Float64":
+				return 1.5, true
+			case "Boolean":
+				return true, true
+			case "Time":
+				return "2020-01-02T03:04:05Z", true
+			}
+			if td != nil && td.Kind == model.Enum {
+				return model.Sym(td.Values[0].Name), true
+			}
+			return "s", true
+		}
+		o := model.NewObjLit()
+		for _, f := range td.Inputs {
+			if f.Type.NonNull && !f.HasDefault {
+				v, ok := minimal(f.Type, depth+1)
+				if !ok {
+					return nil, false
+				}
+				o.Set(f.Name, v)
+			}
+		}
+		return o, true
+	}
+	var out []string
+	for _, rootName := range []string{ms.Query, ms.Mutation} {
+		rt := ms.Type(rootName)
+		if rt == nil {
+			continue
+		}
+		op := "query"
+		if rootName == ms.Mutation {
+			op = "mutation"
+		}
+		for _, f := range rt.Fields {
+			hasInput := false
+			var args []string
+			okAll := true
+			for _, a := range f.Args {
+				base := ms.Type(a.Type.Base())
+				isIn := base != nil && base.Kind == model.Input
+				if isIn {
+					hasInput = true
+				}
+				if isIn || (a.Type.NonNull && !a.HasDefault) {
+					v, ok := minimal(a.Type, 0)
+					if !ok {
+						okAll = false
+						break
+					}
+					args = append(args, a.Name+": "+model.ValueText(v))
+				}
+			}
+			if !hasInput || !okAll {
+				continue
+			}
+			sel := ""
+			if !ms.IsLeaf(f.Type.Base()) {
+				sel = " { __typename }"
+			}
+			out = append(out, fmt.Sprintf("%s { %s(%s)%s }", op, f.Name, strings.Join(args, ", "), sel))
+		}
+	}
+	return out
+}
+
 // c17LoadStaged loads the documents one after the other and asks the full introspection query (both deprecation modes)
 // after each of them; with no staging it is c17Load.
 func c17LoadStaged(sdl string, loads []string, backend string) (*ggql.Root, error) {
@@ -651,6 +740,11 @@ func runC17(c *run.Ctx) {
 				dc := gen.Doc(r, ms, gen.DocOpts{Vars: k%2 == 0, Aliases: true, Depth: 2, MaxSels: 4, MaxOps: 1})
 				text := dc.Doc.Print(model.LayoutN(k))
 				run.Protect(func() { _ = roots[bk].ResolveString(text, dc.OpName, copyVars(dc.Vars)) })
+				c.Count("application_requests_before_introspection", 1)
+			}
+			for _, text := range c17MinimalRequests(ms) {
+				text := text
+				run.Protect(func() { _ = roots[bk].ResolveString(text, "", nil) })
 				c.Count("application_requests_before_introspection", 1)
 			}
 		}
